@@ -152,6 +152,35 @@ func runNM(c *Ctx) (obls []Obl) {
 		} else {
 			a.bad("NM-number", "enumerate/primary", "primary is not set to (goroutine index == 0)", fn.Pos())
 		}
+		// every iteration over the calls walks that call's arguments
+		for _, il := range naturalLoops(fn) {
+			if il.Header == l.Header || !l.Body[il.Header] {
+				continue
+			}
+			is := &SPE{Fn: fn, Start: il.Header, MaxVisits: 2}
+			is.Stop = func(from, to *ssa.BasicBlock) bool {
+				return (to == il.Header && il.Body[from]) || (il.Body[from] && !il.Body[to])
+			}
+			is.Explore()
+			for _, p := range is.Paths {
+				if !(p.Term == "stop" && p.End == il.Header) {
+					continue
+				}
+				walked := false
+				for _, ev := range p.Events {
+					if ev.Kind == EvCall && ev.Val.calleeIs(stackPkg, "(*Args).walk") {
+						walked = true
+					}
+				}
+				if !walked && okWalk {
+					okWalk = false
+					a.bad("NM-number", "enumerate/walk", "an iteration over the calls of a goroutine can go on to the next call without walking the arguments of this one ("+litsString(p)+"): its occurrences are neither counted nor named", pathPos(p, fn))
+				}
+			}
+			if !okWalk {
+				return
+			}
+		}
 		if okWalk {
 			a.ok("NM-number", "enumerate/walk", "the arguments of every call of every goroutine are walked with the visitor", fn.Pos())
 		} else {
@@ -159,6 +188,7 @@ func runNM(c *Ctx) (obls []Obl) {
 		}
 	}
 	// --- collect filters (class B sortedness is MO's)
+	phase2Filtered := false
 	for i, li := range []int{1, 3} {
 		l := loops[li]
 		seg := &SPE{Fn: fn, Start: l.Header, MaxVisits: 2}
@@ -195,7 +225,21 @@ func runNM(c *Ctx) (obls []Obl) {
 					a.bad("NM-number", "phase1/filter", fmt.Sprintf("phase 1 must take a value iff it has more than one occurrence and occurs in the first goroutine (taken=%v on %s)", appended, litsString(p)), pos)
 				}
 			} else {
-				if appended && len(p.Lits) <= 1 {
+				inP, haveP := false, false
+				other := 0
+				for _, lt := range p.Lits {
+					if strings.HasSuffix(lt.Atom.String(), ".inPrimary") {
+						inP, haveP = lt.Pol, true
+					} else {
+						other++
+					}
+				}
+				if haveP && other <= 1 && appended == !inP {
+					// the values of the first goroutine are left out here instead of
+					// being skipped by the numbering loop
+					phase2Filtered = true
+					a.ok("NM-number", "phase2/collect", "phase 2 considers every value that does not occur in the first goroutine", pos)
+				} else if appended && len(p.Lits) <= 1 {
 					a.ok("NM-number", "phase2/collect", "phase 2 considers every value", pos)
 				} else {
 					a.bad("NM-number", "phase2/collect", "phase 2 does not collect every value of the table", pos)
@@ -237,7 +281,9 @@ func runNM(c *Ctx) (obls []Obl) {
 						have = true
 					}
 				}
-				if !have {
+				if !have && phase2Filtered {
+					a.ok("NM-number", "phase2/skip-primary", "values of the first goroutine were left out when the phase 2 list was collected", pos)
+				} else if !have {
 					a.bad("NM-number", "phase2/skip-primary", "phase 2 does not test whether the value occurs in the first goroutine: values named in phase 1 would be renamed, or single-occurrence pointers of the first goroutine named", pos)
 					continue
 				}
